@@ -65,6 +65,9 @@ def run_check(check_id: str, tier: str, seed: int) -> int:
                 wenv["PYTHONHASHSEED"] = str(hs)
                 if hs not in seeds_used:
                     seeds_used.append(hs)
+            if info0.get("cfg_variants"):
+                from .cfgvariant import of_shard
+                wenv["VERIF_CFG_VARIANT"] = str(of_shard(k))
             wenv["VERIF_TMP"] = os.path.join(tmp, f"w{k}")
             os.makedirs(wenv["VERIF_TMP"], exist_ok=True)
             p = subprocess.Popen([PY, "-m", "twzmc.worker", check_id, tier, str(part_k), str(part_n), out],
@@ -173,6 +176,8 @@ def run_check(check_id: str, tier: str, seed: int) -> int:
     }
     if seeds_used:
         cov["hash_seeds"] = seeds_used
+    if info0.get("cfg_variants"):
+        cov["cfg_variants"] = "shards k%4==1 run with the library imported under TAWAZI_IS_SEQUENTIAL=true / TAWAZI_DEFAULT_RESOURCE=main-thread and cfg reset afterwards, shards k%4==3 with those defaults left in force: explicit node attributes must win"
     if capped:
         cov["time_cap_hit"] = True
         cov["capped_shards"] = len(capped)
@@ -216,4 +221,5 @@ def replay(path: str) -> int:
     for k in list(env):
         if (k.startswith("TAWAZI_") and k != "TAWAZI_VERIF") or k == "RUN_DEBUG_NODES":
             del env[k]
+    env["VERIF_CFG_VARIANT"] = str(v.get("cfg_variant", 0))
     return subprocess.call([PY, "-m", "twzmc.replay", path], cwd=ROOT, env=env)
